@@ -23,6 +23,7 @@ struct Tally {
     rechecked: u64,
     sugg_off: u64,
     final_bs: u64,
+    max_memo: u64,
 }
 fn flush(t: &Tally, out: &mut Out) {
     out.count("evaluations", t.calls);
@@ -37,6 +38,7 @@ fn flush(t: &Tally, out: &mut Out) {
     out.count("mismatches_rechecked_with_truly_new_context", t.rechecked);
     out.count("comparisons_with_suggestions_off", t.sugg_off);
     out.count("comparisons_whose_final_event_is_a_backspace", t.final_bs);
+    out.max("memo_entries_in_a_warm_context", t.max_memo);
 }
 
 const STORE: &str = r#"{"onno":"অন্য","ami":"আমই","as":"আশ","kotha":"কোথা","sesh":"শেষ","e":"এ","ebong":"এবং","hothat":"হঠাৎ","\"as\"":"আঁশ","amar":"আমার"}"#;
@@ -77,19 +79,9 @@ fn case_json(c: &Case) -> Value {
 }
 
 fn gen_case(rng: &mut Rng) -> Case {
-    let mut opts = 0u16;
-    if rng.chance(5, 6) {
-        opts |= O_PSUGG;
-    }
-    if rng.chance(1, 2) {
-        opts |= O_ENG;
-    }
-    if rng.chance(1, 2) {
-        opts |= O_SQ;
-    }
-    if rng.chance(1, 5) {
-        opts |= O_ANSI;
-    }
+    // a small pool of option sets, so that each warm context lives through hundreds of cases (thousands of memoised prefixes)
+    const POOL: [u16; 6] = [O_PSUGG, O_PSUGG | O_ENG | O_SQ, O_PSUGG | O_SQ, O_PSUGG | O_ENG, O_PSUGG | O_ANSI | O_SQ, 0];
+    let opts = if rng.chance(9, 10) { POOL[rng.below(5)] } else { POOL[5] };
     let spec = CfgSpec::new(Lay::Phonetic, opts);
     let punct: Vec<char> = PUNCT.chars().collect();
     let letters: Vec<char> = LETTERS.chars().collect();
@@ -128,6 +120,11 @@ fn gen_case(rng: &mut Rng) -> Case {
                     *c = c.to_ascii_uppercase();
                 }
                 cs.into_iter().collect()
+            }
+            6 => {
+                // a fresh random word: keeps the memo growing over the life of the context
+                let n = rng.range(3, 7);
+                (0..n).map(|_| letters[rng.below(26)]).collect()
             }
             _ => WORDS[rng.below(WORDS.len())].to_string(),
         };
@@ -248,6 +245,7 @@ fn run_warm(warm: &Sess, other: Option<&Sess>, c: &Case, t: &mut Tally) -> Resul
     // memo state before ending the word
     let st = warm.state();
     let word = split(&c.target, false).1;
+    t.max_memo = t.max_memo.max(st.get("cache_keys").and_then(|k| k.as_array()).map_or(0, |a| a.len() as u64));
     let warm_memo = st.get("cache_keys").and_then(|k| k.as_array()).map_or(false, |a| a.iter().any(|x| x.as_str() == Some(word.as_str())));
     let rs = Rs::of(last.as_ref().unwrap());
     warm.finish()?;
@@ -416,7 +414,7 @@ impl Prop for C05 {
         "C05"
     }
     fn rule(&self) -> String {
-        "random cases: phonetic configuration (suggestions on 5/6; English, smart quotes, ANSI free); a pre-populated learned-selection store and user auto-correct file held fixed; \
+        "random cases: phonetic configuration drawn from a pool of 6 option sets (so that every warm context lives through hundreds of cases; memo sizes reached are reported under maxima); a pre-populated learned-selection store and user auto-correct file held fixed; \
          0-6 prior words drawn from a vocabulary built to collide with the target (its prefixes, extensions with suffixes, case variants, other wrappings, the 30 base words) each ended by finish / ctrl-backspace / commit of the pre-selected index; \
          the target (wrapped/unwrapped known words and random strings) reached through an insert/backspace edit script with detours; a second context over another user directory with other options poked between events in half of the cases. \
          In a quarter of the cases the final event is a backspace that deletes an extra character (a punctuation key with a selection byte, or a letter) in the warm context and an extra k in the reference. Reference: a context whose method object is re-created (update_engine to another layout and back) before each comparison types the target directly with the same final selection byte; \
